@@ -11,7 +11,6 @@ import (
 	"math"
 	"os"
 	"path/filepath"
-	"reflect"
 	"sort"
 	"strings"
 	"testing"
@@ -28,15 +27,24 @@ func sKeyCanon(k benchproc.Key) (s string) {
 			s = ""
 		}
 	}()
-	v := reflect.ValueOf(k).Field(0)
-	if v.IsNil() {
+	if k.IsZero() {
 		return "<zero>"
 	}
-	vals := v.Elem().FieldByName("vals")
+	// public API only, and nothing that fills a cache of the projection (FlattenedFields and Key.String do)
 	var b strings.Builder
-	for i := 0; i < vals.Len(); i++ {
-		fmt.Fprintf(&b, "%q,", vals.Index(i).String())
+	var walk func(fs []*benchproc.Field)
+	walk = func(fs []*benchproc.Field) {
+		for _, f := range fs {
+			if f.IsTuple {
+				walk(f.Sub)
+				continue
+			}
+			if v := k.Get(f); v != "" {
+				fmt.Fprintf(&b, "%q=%q,", f.Name, v)
+			}
+		}
 	}
+	walk(k.Projection().Fields())
 	return b.String()
 }
 
